@@ -54,7 +54,7 @@ def bounds(tier):
 
 
 def required_guards(tier):
-    return ['accepted', 'rejected', 'as_key', 'as_value', 'lookups', 'ep:setstate', 'ep:ctor-dict',
+    return ['accepted', 'rejected', 'as_key', 'as_value', 'lookups', 'ep:setstate', 'refused_load_target_checked', 'ep:ctor-dict',
             'ep:update-OOBTree', 'ep:ctor-OOSet',
             'ep:update-pairs', 'ep:setdefault', 'ep:insert', 'ep:ior', 'base:multi']
 
@@ -206,10 +206,18 @@ def job(fam, impl):
                 t.update(src)
             elif ep == 'setstate':
                 n = cls()
+                target[0] = n
                 flat = (k, v) if ismap else (k,)
+                if target[1]:
+                    # a datum that must be refused sits BETWEEN two good items: whatever was converted
+                    # before the refusal must not stay behind in the target
+                    g0, g2 = grid[0], grid[-1]
+                    flat = (g0, vals[0]) + flat + (g2, vals[1]) if ismap else (g0,) + flat + (g2,)
                 n.__setstate__((((flat,),),) if tree else (flat,))
                 return n
             return t
+
+        target = [None, False]
 
         for role in ('key', 'value'):
             if role == 'value' and not ismap:
@@ -258,6 +266,7 @@ def job(fam, impl):
                         guards['as_' + role] += 1
                         guards['ep:' + ep] += 1
                         guards['base:' + bname] += 1
+                        target[0], target[1] = None, cl[0] != 'ok'
                         try:
                             holder = write(t, ep, k, v)
                             outcome = 'ok'
@@ -305,6 +314,26 @@ def job(fam, impl):
                                         '%s %s as %s via %s into %s container: %s; contents now %r'
                                         % (kind, x0, role, ep, bname, outcome,
                                            _safe(lambda: contents(holder, ismap))))
+                            if ep == 'setstate' and outcome != 'ok' and target[0] is not None:
+                                # the target of the refused load: empty, readable, and usable afterwards
+                                n = target[0]
+                                guards['refused_load_target_checked'] += 1
+                                seen_ = _safe(lambda: (len(n), contents(n, ismap)))
+                                if seen_ == (0, []):
+                                    def reuse():
+                                        if ismap:
+                                            n[newk] = vals[0]
+                                        else:
+                                            n.add(newk)
+                                        return contents(n, ismap)
+                                    seen_ = _safe(reuse)
+                                    want_ = [(newk, vals[0])] if ismap else [newk]
+                                else:
+                                    want_ = (0, [])
+                                if seen_ != want_:
+                                    rep.add(dict(sig, cls='refused-load-left-data', out=outcome), case,
+                                            'after __setstate__ refused %r the target reads %r (expected %r)'
+                                            % (x0, seen_, want_))
                             if holder is t:
                                 after = _safe(lambda: contents(t, ismap))
                                 dafter = _safe(lambda: C.dump(t, tree))
